@@ -75,13 +75,17 @@ static int apply(const lin_op *o, dq *q)
             q->n -= o->ntok;
             return 1;
         case LIN_REMOVE:
+            /* max = 1: the call succeeded (the unit must be there); max = 0: it was refused
+             * because the unit was not in the pool (it must not be there) */
             for (int i = 0; i < q->n; i++)
                 if (q->v[i] == o->tok[0]) {
+                    if (!o->max)
+                        return 0;
                     memmove(&q->v[i], &q->v[i + 1], sizeof(int) * (size_t)(q->n - i - 1));
                     q->n--;
                     return 1;
                 }
-            return 0;
+            return o->max ? 0 : 1;
         case LIN_SIZE:
             return q->n == o->max;
     }
